@@ -79,3 +79,182 @@ def run_case(case, model):          # noqa: F811
         hits = [h for h in r.hits if h['signature'].startswith('c13.')]
         return CaseResult(r.mismatch, hits, ('sched',) + tuple(r.key) if r.key else None, ['sched'] + [t for t in r.tags if t.startswith('label:') or t.startswith('outcome:')])
     return _base_run_case(case, model)
+
+
+# ---------------------------------------------------------------------------------------------
+# the bytes of a bounce message (Model/Bounce.lean): real Bounce / BytesFormat against the model
+
+_WORDS = ['Delivery', 'failed', '{sender}', '{recipients}', '{code}', '{message}', '{boundary}', '{delivery_info}', '{content_type}',
+          '{client_name}', '{client_ip}', '{protocol}', '{nosuchkey}', '{0}', '{', '}', '{}', '{a b}', '{{code}}', 'X-Note: x', '\n', '\r\n', ': ', ' ', '\t',
+          'Subject: bounce', 'To: {sender}', '\n\n', '--{boundary}', 'café']
+
+
+def _bx(b):
+    return b.hex() if b else '_'
+
+
+def content_cases(tier, seed):
+    for j in range(700 if tier == 'quick' else 14000):
+        def mk(j=j):
+            rng = rng_for(seed, 'c13c', j)
+            sender = rng.choice(['a@example.com', 'someone.else+tag@sub.example.org', '"quoted sender"@example.com', 'jürgen@example.com', 'x', 'a b@example.com'])
+            rcpts = ['r%d@%s' % (i, rng.choice(['example.com', 'other.example', 'x.test'])) for i in range(rng.choice([1, 1, 2, 3, 5]))]
+            client = rng.choice([None, {}, {'name': 'mail.example.com', 'ip': '192.0.2.7'}, {'name': 'only.name'}, {'ip': '2001:db8::1', 'protocol': 'ESMTPS'}])
+            code = rng.choice(['550', '552', '450', '421', '554'])
+            message = rng.choice(['5.1.1 No such user', '4.0.0 temp r1 (Too many retries)', 'multi\r\nline answer', 'café closed', '', '5.0.0 {code} braces {boundary}', '  spaced  '])
+            address = rng.choice([None, 'mx.example.net', ('mx2.example.net', 25), ''])
+            nl = rng.choice(['\r\n', '\r\n', '\n'])
+            hdr = nl.join(rng.sample(['From: orig@sender.example', 'Subject: test é', 'X-Long: a' + nl + ' b', 'Message-Id: <1@x>', 'To: you@example.com'], rng.randint(1, 4)))
+            body = rng.choice([b'line one\r\n.\r\n\xff\xfe body\r\n', b'', b'no newline at end', b'bare\nlf\nlines\n', b'\r\n\r\nleading blank lines\r\n', b'--boundary_=abc--\r\n'])
+            tpl = None
+            if rng.random() < 0.35:
+                # custom templates (class attributes of a subclass), as text or bytes, LF line ends allowed
+                def mktpl(n):
+                    return ''.join(rng.choice(_WORDS) + rng.choice(['', ' ', '\n']) for _ in range(n))
+                tpl = ['Subject: custom\nTo: {sender}\n\n' + mktpl(rng.randint(0, 8)) if rng.random() < 0.7 else mktpl(rng.randint(1, 10)), mktpl(rng.randint(0, 4)),
+                       rng.random() < 0.5]
+            return {'kind': 'content', 'sender': sender, 'rcpts': rcpts, 'client': client, 'code': code, 'message': message, 'address': list(address) if isinstance(address, tuple) else address,
+                    'orig': (hdr + nl + nl).encode('utf-8').hex() + body.hex(), 'headers_only': rng.random() < 0.3, 'tpl': tpl}
+        yield mk
+    for j in range(500 if tier == 'quick' else 10000):
+        def mk(j=j):
+            rng = rng_for(seed, 'c13b', j)
+            tpl = ''.join(rng.choice(_WORDS + ['{k1}', '{k_2}', '{K3}', 'lit']) for _ in range(rng.randint(0, 9))).encode('utf-8')
+            tbl = dict((k, rng.choice([b'', b'v', b'{code}', b'\xff\r\n'])) for k in rng.sample(['k1', 'k_2', 'K3', 'code', 'sender', 'boundary'], rng.randint(0, 4)))
+            return {'kind': 'format', 'tpl': tpl.hex(), 'tbl': dict((k, v.hex()) for k, v in tbl.items()), 'mode': rng.choice(['remove', 'ignore'])}
+        yield mk
+
+
+def run_content(case, model):
+    import slimta.bounce as bmod
+    from slimta.bounce import Bounce
+    from slimta.envelope import Envelope
+    from slimta.smtp.reply import Reply
+    from slimta.util.bytesformat import BytesFormat
+    from harness.core import CaseResult, hit
+
+    def showparts(parts):
+        return ','.join(('L' if t == 0 else 'K') + v.hex() for t, v in parts) or '-'
+    if case['kind'] == 'format':
+        tpl = bytes.fromhex(case['tpl'])
+        bf = BytesFormat(tpl, mode=case['mode'])
+        kw = dict((k, bytes.fromhex(v)) for k, v in case['tbl'].items())
+        impl = showparts(bf.template_parts) + ' ' + _bx(bf.format(**kw))
+        mo = model.ask('bounce parse %s' % _bx(tpl)) + ' ' + model.ask('bounce format %d %s %s' % (
+            1 if case['mode'] == 'remove' else 0, _bx(tpl), ','.join('%s=%s' % (k.encode().hex(), _bx(v)) for k, v in sorted(kw.items())) or '-'))
+        mm = None if impl == mo else {'op': 'bounce parse/format', 'impl': impl[:400], 'model': mo[:400]}
+        return CaseResult(mm, [], ('format', case['tpl'], tuple(sorted(case['tbl'].items())), case['mode']), ['kind:format', 'mode:' + case['mode']])
+    # the module-level default templates of the source must be the ones the theorems are about
+    hits = []
+    dflt = showparts(bmod.default_header_template.template_parts) + ' ' + showparts(bmod.default_footer_template.template_parts)
+    mdflt = model.ask('bounce default')
+    mismatch = None
+    if dflt != mdflt:
+        mismatch = {'op': 'bounce default', 'what': 'the default bounce templates of slimta/bounce are not the ones of Model/Bounce.lean', 'impl': dflt[:600], 'model': mdflt[:600]}
+    orig = bytes.fromhex(case['orig'])
+    env = Envelope(case['sender'], list(case['rcpts']))
+    env.parse(orig)
+    if case['client'] is not None:
+        env.client = dict(case['client'])
+    env.receiver = 'receiver.example'
+    addr = tuple(case['address']) if isinstance(case['address'], list) else case['address']
+    reply = Reply(case['code'], case['message'], address=addr)
+    tpl = case['tpl']
+    captured = []
+
+    class Tapped(Bounce):
+        # the bytes handed to Envelope.parse are what Model/Bounce.lean's `payload` is; what the email package makes of a header
+        # block that is not well formed (custom templates) is outside the model (C20)
+        if tpl:
+            header_template = tpl[0].encode('ascii', 'replace') if tpl[2] else tpl[0].encode('ascii', 'replace').decode('ascii')
+            footer_template = tpl[1].encode('ascii', 'replace') if tpl[2] else tpl[1].encode('ascii', 'replace').decode('ascii')
+
+        def parse(self, data):
+            captured.append(data)
+            return Bounce.parse(self, data)
+    cls = Tapped
+
+    class FixedUuid(object):
+        class _U(object):
+            hex = '0123456789abcdef0123456789abcdef'
+
+        def uuid4(self):
+            return self._U()
+    saved = bmod.uuid
+    bmod.uuid = FixedUuid()
+    try:
+        oh, ob = env.flatten()
+        b = cls(env, reply, headers_only=case['headers_only'])
+        try:
+            bh, bb = b.flatten()
+        except Exception:
+            if not tpl:
+                raise
+            bh = bb = None      # the email package gave up on a custom header block
+    finally:
+        bmod.uuid = saved
+    import re
+    th = tf = '-'
+    if tpl:
+        th = _bx(re.sub(br'\r?\n', b'\r\n', tpl[0].encode('ascii', 'replace')))
+        tf = _bx(re.sub(br'\r?\n', b'\r\n', tpl[1].encode('ascii', 'replace')))
+    client = '-'
+    if case['client']:
+        client = '%s:%s' % (_bx(case['client'].get('name', 'unknown').encode()), _bx(case['client'].get('ip', 'unknown').encode()))
+    host = '-'
+    if addr:
+        host = _bx((addr if isinstance(addr, str) else addr[0]).encode('utf-8'))
+    cl = case['client'] or {}
+    line = 'bounce build %s %s %s %s %s %s %s %s %s %s %s %s %d %s %s' % (
+        th, tf, _bx(case['sender'].encode('utf-8')), _bx('\r\n- '.join(case['rcpts']).encode('ascii')), client, host,
+        _bx(case['code'].encode()), _bx(reply.message.encode('utf-8')), _bx(cl.get('name', 'unknown').encode()), _bx(cl.get('ip', 'unknown').encode()),
+        _bx(cl.get('protocol', 'unknown').encode()), _bx(b'boundary_=0123456789abcdef0123456789abcdef'), 1 if case['headers_only'] else 0, _bx(oh), _bx(ob))
+    mo = model.ask(line).split(' ')
+    if mismatch is None and (len(mo) < 3 or len(captured) != 1 or mo[2] != _bx(captured[0])):
+        mismatch = {'op': 'bounce build', 'what': 'the bytes of the bounce message (handed to Envelope.parse)', 'impl': _bx(captured[0] if captured else b'')[:900],
+                    'model': (mo[2] if len(mo) > 2 else ' '.join(mo))[:900], 'case': line[:300]}
+    if mismatch is None and not tpl and mo[1] != _bx(bb):
+        mismatch = {'op': 'bounce build', 'what': 'message data of the bounce', 'impl': _bx(bb)[:600], 'model': mo[1][:600], 'case': line[:300]}
+    if mismatch is None and not tpl and case['sender'].isascii() and mo[0] != _bx(bh):
+        # (a non-ASCII address in To: is re-encoded by the email package: C20's well-formed domain ends there)
+        mismatch = {'op': 'bounce build', 'what': 'header data of the bounce', 'impl': _bx(bh)[:600], 'model': mo[0][:600], 'case': line[:300]}
+    # the property, on the implementation alone
+    problems = []
+    if b.sender != '' or b.recipients != [case['sender']]:
+        problems.append('not addressed to the original sender only / sender not null: %r %r' % (b.sender, b.recipients))
+    if not tpl:
+        want = oh + (b'' if case['headers_only'] else ob)
+        if want not in bb:
+            problems.append('original header block / body not embedded unchanged')
+        if (case['code'] + ' ' + reply.message).encode('utf-8') not in bb:
+            problems.append('reply not quoted')
+        if case['headers_only'] and ob and (oh + ob) in bb:
+            problems.append('body embedded although headers-only')
+        for r in case['rcpts']:
+            if r.encode('ascii') not in bb:
+                problems.append('recipient %s not named' % r)
+    if problems:
+        hits.append(hit('c13.bounce-content', 'bounce message content wrong', observed=problems))
+    tags = ['kind:content', 'headers-only' if case['headers_only'] else 'full', 'custom-template' if tpl else 'default-template',
+            'client:' + ('none' if not case['client'] else ','.join(sorted(case['client']))), 'address:' + type(addr).__name__]
+    key = ('content', case['sender'], tuple(case['rcpts']), str(case['client']), case['code'], case['message'], str(addr), case['orig'], case['headers_only'], str(tpl))
+    return CaseResult(mismatch, hits, key, tags)
+
+
+_cases_before_content = cases
+
+
+def cases(tier, seed, phase):          # noqa: F811
+    for c in _cases_before_content(tier, seed, phase):
+        yield c
+    for c in content_cases(tier, seed):
+        yield c
+
+
+_run_before_content = run_case
+
+
+def run_case(case, model):          # noqa: F811
+    if case.get('kind') in ('content', 'format'):
+        return run_content(case, model)
+    return _run_before_content(case, model)
